@@ -41,6 +41,7 @@ def run_parser(facts, decode=None, stubs=None, budget=20000):
             raise Unanalysable("AisParser field %s of type %s" % (fdef["name"], t["text"]))
     selfv = VAdt(adt["def"], 0, vals)
     cell = I.new_cell(st, selfv)
+    I.watch_cells.add(cell)
     line = VSlice(LINE, Lin.const(0), Lin.atom(("len", LINE)))
     if decode is None:
         dec = VBool(("in", ("sym", "decode", 0, 1), IntSet.of(1)))
